@@ -53,6 +53,7 @@ RULE = ("one evaluation = one generated VTIMEZONE text + query history (or "
         "history")
 EXPECTED_PROBES = ["lookup_cache_hit", "lookup_cache_miss",
                    "lookup_cache_evict", "form.rrule", "form.rdate",
+                   "form.rrule_count",
                    "order.daylight_first", "folded_lines", "multi_zone_file",
                    "single_zone_unnamed", "source.path", "before_first_onset",
                    "gap_wall_time", "fold_wall_time", "fresh_copy_agrees",
@@ -146,6 +147,9 @@ def vtimezone(spec, tzid, form, daylight_first, nyears, fold_width=None,
         lines.append("TZNAME:" + name)
         if form == "rrule":
             lines.append("RRULE:" + rrule_text(rule))
+        elif form == "rrule_count":
+            # a finite recurrence: its cached set completes
+            lines.append("RRULE:%s;COUNT=%d" % (rrule_text(rule), nyears))
         else:
             dates = [fmt_dt(onset_local(rule, y))
                      for y in range(Y0 + 1, Y0 + nyears)]
@@ -181,8 +185,8 @@ def vtimezone(spec, tzid, form, daylight_first, nyears, fold_width=None,
 
 def gen_zone_spec(rng, form=None):
     spec = PX.gen_spec(rng)
-    form = form or rng.choice(["rrule", "rrule", "rdate"])
-    if form == "rrule":
+    form = form or rng.choice(["rrule", "rrule", "rdate", "rrule_count"])
+    if form in ("rrule", "rrule_count"):
         # 24:00 cannot be written as a DTSTART time of day
         for r in (spec["start"], spec["end"]):
             if r[-1] >= 86400:
@@ -216,7 +220,7 @@ def generate(cls, rng):
     small = cls == "threads"
     nyears = rng.choice([3, 4, 6]) if small else \
         rng.choice([4, 8, 12, 25, 41])
-    if form == "rdate":
+    if form in ("rdate", "rrule_count"):
         nyears = min(nyears, 12)
     other, other_form = gen_zone_spec(rng)
     sc = dict(spec=spec, form=form, nyears=nyears,
@@ -295,7 +299,7 @@ class ZoneUnderTest(object):
         a, b = PX.transitions_utc(spec, Y0)
         self.first_all = max(a, b)
         self.first_any = min(a, b)
-        if sc["form"] == "rdate":
+        if sc["form"] in ("rdate", "rrule_count"):
             la, lb = PX.transitions_utc(spec, Y0 + sc["nyears"])
             self.limit = min(la, lb)
         else:
